@@ -45,6 +45,11 @@ def envs (p : Platform) (pid : Nat) (state : PidState) (pid0 : Bool) (zcode : Op
   | .zombie, some c => (probeEnv zcfg p pid (some c) pid0, Spec.docEnv p pid (some c) pid0)
   | _, _ => (⟨pid, state, pid0⟩, ⟨pid, state, pid0⟩)
 
+/-- outcomes outside the specification that finding C20-sunos-aix-exists-means-zombie explains for this
+    case (empty outside `Spec.knownZombieDeviation`) -/
+def toleratedOutcomes (p : Platform) (e : Err) (env : Env) : List Outcome :=
+  if Spec.knownZombieDeviation p.family e env then [.zombie env.pid true] else []
+
 def handleFault (j : Json) : R Json := do
   let p ← strF j "plat" >>= parsePlat
   let meth ← strF j "meth"
@@ -67,6 +72,7 @@ def handleFault (j : Json) : R Json := do
   return jObj [
     ("model", jObj [("o", jOutcome o), ("sleeps", jNat sleeps), ("wrapped", Json.bool m.wrapped)]),
     ("spec", jObj [("cell", jOutcome (Spec.contract p.family e env)), ("allowed", jList jOutcome allowed),
+                   ("tolerated", jList jOutcome (toleratedOutcomes p e env)),
                    ("retries", jNat (if p == .windows && Spec.retriesPartialCopy meth
                                         && winerror == some Spec.partialCopyCode then Spec.partialCopyRetries else 0))])]
 
@@ -101,6 +107,7 @@ def handleFault2 (j : Json) : R Json := do
     ("model", jObj [("o", jOutcome o), ("sleeps", jNat sleeps), ("wrapped", Json.bool m.wrapped),
                     ("first", jAfter (afterFirst cfg p m call1 e1 envM))]),
     ("spec", jObj [("cell", jOutcome (Spec.contract p.family e2 env)), ("allowed", jList jOutcome allowed),
+                   ("tolerated", jList jOutcome (toleratedOutcomes p e2 env)),
                    ("retries", jNat 0)])]
 
 /-- "map.slot[*k]" → (map, slot index, multiplier) through the generated slot maps -/
@@ -277,7 +284,8 @@ def handleFront2 (j : Json) : R Json := do
       let e : Err := ⟨errno, winerror⟩
       let (envM, env) := envs p pid state pid0 zcode
       return jObj [("model", jInitRes (frontInit ign ct (identFault cfg p m call e envM))),
-                   ("spec", jInitRes (Spec.initExpected p e env ign))]
+                   ("spec", jInitRes (Spec.initExpected p e env ign)),
+                   ("tolerated", jList jInitRes (if Spec.knownZombieDeviation p.family e env then [.built none none false] else []))]
   else if fn == "eq" then
     let obn ← boolF j "obn"
     let i1 ← field j "i1" >>= parseIdentPair
